@@ -532,3 +532,109 @@ func LeafPaths(c *configs.SchedulerConfig) (leaves []string, parents []string) {
 	sort.Strings(parents)
 	return
 }
+
+// CloneConf deep copies a configuration (through YAML).
+func CloneConf(c *configs.SchedulerConfig) *configs.SchedulerConfig {
+	out := &configs.SchedulerConfig{}
+	if err := yaml.Unmarshal([]byte(MarshalConf(c)), out); err != nil {
+		panic(err)
+	}
+	return out
+}
+
+// ValidConf tells whether the repository's validator accepts the configuration.
+func ValidConf(c *configs.SchedulerConfig) bool {
+	_, err := configs.LoadSchedulerConfigFromByteArray([]byte(MarshalConf(c)))
+	return err == nil
+}
+
+func walkQueues2(q *configs.QueueConfig, f func(q *configs.QueueConfig)) {
+	f(q)
+	for i := range q.Queues {
+		walkQueues2(&q.Queues[i], f)
+	}
+}
+
+// MutateLimits returns a variation of the configuration in which user/group limits were dropped, changed or added
+// (queue tree unchanged). The result is valid; when a mutation is refused by the validator the input is returned.
+func MutateLimits(t *rapid.T, c *configs.SchedulerConfig) *configs.SchedulerConfig {
+	return MutateLimitsKinds(t, c, []int{0, 1, 2, 3, 4, 5})
+}
+
+// MutateLimitsKinds restricts the mutation kinds: 0,1 drop one entry; 2 drop all entries of a queue; 3 change the values
+// of an entry; 4 add a user entry (named or wildcard); 5 add a group entry.
+func MutateLimitsKinds(t *rapid.T, c *configs.SchedulerConfig, kinds []int) *configs.SchedulerConfig {
+	out := CloneConf(c)
+	var qs []*configs.QueueConfig
+	walkQueues2(&out.Partitions[0].Queues[0], func(q *configs.QueueConfig) { qs = append(qs, q) })
+	n := rapid.IntRange(1, 3).Draw(t, "limit-mutations")
+	for i := 0; i < n; i++ {
+		q := qs[rapid.IntRange(0, len(qs)-1).Draw(t, "mut-queue")]
+		switch rapid.SampledFrom(kinds).Draw(t, "mut-kind") {
+		case 0, 1: // drop one entry
+			if len(q.Limits) > 0 {
+				j := rapid.IntRange(0, len(q.Limits)-1).Draw(t, "mut-drop")
+				q.Limits = append(append([]configs.Limit{}, q.Limits[:j]...), q.Limits[j+1:]...)
+			}
+		case 2: // drop all
+			q.Limits = nil
+		case 3: // change values of one entry (lower, so that it stays within the ancestors)
+			if len(q.Limits) > 0 {
+				j := rapid.IntRange(0, len(q.Limits)-1).Draw(t, "mut-change")
+				for k, v := range q.Limits[j].MaxResources {
+					var x int64
+					_, _ = fmt.Sscanf(strings.TrimSuffix(v, "m"), "%d", &x)
+					if x > 1 {
+						x = rapid.Int64Range(1, x).Draw(t, "mut-val")
+					}
+					if k == "vcore" {
+						q.Limits[j].MaxResources[k] = fmt.Sprintf("%dm", x)
+					} else {
+						q.Limits[j].MaxResources[k] = fmt.Sprintf("%d", x)
+					}
+				}
+				if q.Limits[j].MaxApplications > 1 {
+					q.Limits[j].MaxApplications = rapid.Uint64Range(1, q.Limits[j].MaxApplications).Draw(t, "mut-apps")
+				}
+			}
+		case 4: // add a named user entry in front, or a user wildcard at the end
+			name := rapid.SampledFrom(append(append([]string{}, Users...), "*")).Draw(t, "mut-name")
+			l := configs.Limit{Limit: "added", Users: []string{name}, MaxApplications: rapid.Uint64Range(1, 2).Draw(t, "mut-newapps"),
+				MaxResources: map[string]string{"memory": fmt.Sprintf("%d", rapid.Int64Range(1, 6).Draw(t, "mut-newmem"))}}
+			dup := false
+			for _, e := range q.Limits {
+				for _, u := range e.Users {
+					if u == name {
+						dup = true
+					}
+				}
+			}
+			if !dup {
+				if name == "*" {
+					q.Limits = append(q.Limits, l)
+				} else {
+					q.Limits = append([]configs.Limit{l}, q.Limits...)
+				}
+			}
+		case 5: // add a named group entry in front
+			name := rapid.SampledFrom(Groups).Draw(t, "mut-gname")
+			l := configs.Limit{Limit: "added-g", Groups: []string{name}, MaxApplications: rapid.Uint64Range(1, 2).Draw(t, "mut-newgapps"),
+				MaxResources: map[string]string{"memory": fmt.Sprintf("%d", rapid.Int64Range(1, 6).Draw(t, "mut-newgmem"))}}
+			dup := false
+			for _, e := range q.Limits {
+				for _, g := range e.Groups {
+					if g == name {
+						dup = true
+					}
+				}
+			}
+			if !dup {
+				q.Limits = append([]configs.Limit{l}, q.Limits...)
+			}
+		}
+	}
+	if !ValidConf(out) {
+		return c
+	}
+	return out
+}
